@@ -45,10 +45,24 @@ class oracle:
         return False
 
 
-def _make_wrapper(orig: Callable, mon_name: str, post: Callable | None, on_exc: Callable | None):
+def _make_wrapper(orig: Callable, mon_name: str, post: Callable | None, on_exc: Callable | None,
+                  pre: Callable | None = None):
     def wrapper(*args, **kwargs):
         if STATE.depth:
             return orig(*args, **kwargs)
+        token = None
+        if pre is not None:
+            # snapshot taken before the call (e.g. to detect mutation of the operands)
+            STATE.depth += 1
+            try:
+                token = pre(args, kwargs)
+            except CaseTimeout:
+                raise
+            except Exception:  # noqa: BLE001
+                STATE.errors[mon_name] += 1
+                _note_error(mon_name)
+            finally:
+                STATE.depth -= 1
         try:
             result = orig(*args, **kwargs)
         except CaseTimeout:
@@ -71,7 +85,10 @@ def _make_wrapper(orig: Callable, mon_name: str, post: Callable | None, on_exc: 
             STATE.depth += 1
             try:
                 STATE.counts[mon_name] += 1
-                post(args, kwargs, result)
+                if pre is not None:
+                    post(args, kwargs, result, token)
+                else:
+                    post(args, kwargs, result)
             except CaseTimeout:
                 raise
             except Exception:
@@ -100,7 +117,7 @@ def first_errors() -> dict[str, str]:
 
 def install(owner: Any, name: str, post: Callable | None = None, *, mon: str | None = None,
             aliases: tuple[str, ...] = (), also: tuple[tuple[Any, str], ...] = (),
-            on_exc: Callable | None = None) -> None:
+            on_exc: Callable | None = None, pre: Callable | None = None) -> None:
     """Wrap `owner.name` (class attribute or module attribute).
 
     aliases: other attribute names on the same owner that were bound to the same function at class
@@ -115,19 +132,19 @@ def install(owner: Any, name: str, post: Callable | None = None, *, mon: str | N
     else:
         mon_name = mon or f"{getattr(owner, '__name__', owner)}.{name}"
     if isinstance(raw, classmethod):
-        wrapped: Any = classmethod(_make_wrapper(raw.__func__, mon_name, post, on_exc))
+        wrapped: Any = classmethod(_make_wrapper(raw.__func__, mon_name, post, on_exc, pre))
     elif isinstance(raw, staticmethod):
-        wrapped = staticmethod(_make_wrapper(raw.__func__, mon_name, post, on_exc))
+        wrapped = staticmethod(_make_wrapper(raw.__func__, mon_name, post, on_exc, pre))
     elif hasattr(raw, "cache_info"):
         # functools.lru_cache object: keep cache_info/cache_clear/__wrapped__
-        w = _make_wrapper(raw, mon_name, post, on_exc)
+        w = _make_wrapper(raw, mon_name, post, on_exc, pre)
         w.cache_info = raw.cache_info
         w.cache_clear = raw.cache_clear
         w.__wrapped__ = raw.__wrapped__
         w.__vf_cached__ = raw
         wrapped = w
     else:
-        wrapped = _make_wrapper(raw, mon_name, post, on_exc)
+        wrapped = _make_wrapper(raw, mon_name, post, on_exc, pre)
     targets = [(owner, name)] + [(owner, a) for a in aliases] + list(also)
     for tgt, attr in targets:
         old = tgt.__dict__[attr] if isinstance(tgt, type) else getattr(tgt, attr)
